@@ -221,7 +221,9 @@ pub unsafe extern "C" fn getrandom(buf: *mut c_void, len: size_t, flags: c_uint)
     if !ENTROPY_ON.load(Ordering::Relaxed) {
         return libc::syscall(libc::SYS_getrandom, buf, len, flags) as ssize_t;
     }
-    ENTROPY_CALLS.fetch_add(1, Ordering::Relaxed);
+    let n = ENTROPY_CALLS.fetch_add(1, Ordering::Relaxed) + 1;
+    let (mut nb, mut lb) = ([0u8; 24], [0u8; 24]);
+    log(&[b"getrandom ", fmt_num(n as i64, &mut nb), b" len ", fmt_num(len as i64, &mut lb), b" (seeded)"]);
     let out = std::slice::from_raw_parts_mut(buf as *mut u8, len);
     for chunk in out.chunks_mut(8) {
         let v = splitmix(&ENTROPY_STATE).to_le_bytes();
